@@ -1053,7 +1053,7 @@ func c16Enumerate(maxAdds int, maxes []int, lats [][]int) func(yield func(c16Cas
 func TestVerif_C16_random(t *testing.T) {
 	// one P: the goroutines of a bubble interleave only at blocking points (see verif.json level_note)
 	defer runtime.GOMAXPROCS(runtime.GOMAXPROCS(1))
-	kit.Run(t, "C16", "exec-random", kit.Opts{Quick: 6000, Thorough: 400000}, c16Gen,
+	kit.Run(t, "C16", "exec-random", kit.Opts{Quick: 6000, Thorough: 240000}, c16Gen,
 		func(c c16Case) kit.Verdict { return c16Interp(t, c) })
 }
 
@@ -1072,6 +1072,6 @@ func TestVerif_C16_parallel(t *testing.T) {
 		defer runtime.GOMAXPROCS(runtime.GOMAXPROCS(4))
 	}
 	c16BaseGoroutines = runtime.NumGoroutine()
-	kit.Run(t, "C16", "exec-parallel", kit.Opts{Quick: 1200, Thorough: 48000}, c16GenPar,
+	kit.Run(t, "C16", "exec-parallel", kit.Opts{Quick: 1200, Thorough: 32000}, c16GenPar,
 		func(c c16Case) kit.Verdict { return c16InterpPar(t, c) })
 }
